@@ -90,6 +90,7 @@ HCIcnbit_init(accrec_t *access_rec)
 
     /* Initialize N-bit state information */
     nbit_info->buf_pos = NBIT_BUF_SIZE; /* start at the beginning of the buffer */
+    nbit_info->buf_len = 0;             /* nothing expanded yet */
     nbit_info->nt_pos  = 0;             /* start at beginning of the NT info */
     nbit_info->offset  = 0;             /* offset into the file */
     memset(nbit_info->mask_buf, (nbit_info->fill_one == TRUE ? 0xff : 0), (size_t)nbit_info->nt_size);
@@ -191,10 +192,10 @@ HCIcnbit_decode(compinfo_t *info, int32 length, uint8 *buf)
     sign_mask     = mask_arr32[(nbit_info->mask_off % 8) + 1] ^ mask_arr32[nbit_info->mask_off % 8];
 
     buf_size    = MIN(NBIT_BUF_SIZE, length);
-    buf_items   = buf_size / nbit_info->nt_size; /* compute # of items in buffer */
+    buf_items   = (buf_size + nbit_info->nt_size - 1) / nbit_info->nt_size; /* # of whole items to expand */
     orig_length = length;                        /* save this for later */
     while (length > 0) {                         /* decode until we have all the bytes */
-        if (nbit_info->buf_pos >= buf_size) {    /* re-fill buffer */
+        if (nbit_info->buf_pos >= nbit_info->buf_len) { /* re-fill buffer */
             rbuf = (uint8 *)nbit_info->buffer;   /* get a ptr to the buffer */
 
             /* get initial copy of the mask */
@@ -247,11 +248,13 @@ HCIcnbit_decode(compinfo_t *info, int32 length, uint8 *buf)
                 }
             }
 
-            nbit_info->buf_pos = 0; /* reset buffer position */
+            nbit_info->buf_pos = 0;                              /* reset buffer position */
+            nbit_info->buf_len = buf_items * nbit_info->nt_size; /* bytes now in the buffer */
         }
 
-        copy_length =
-            (int)((length > (buf_size - nbit_info->buf_pos)) ? (buf_size - nbit_info->buf_pos) : length);
+        copy_length = (int)((length > (nbit_info->buf_len - nbit_info->buf_pos))
+                                ? (nbit_info->buf_len - nbit_info->buf_pos)
+                                : length);
 
         memcpy(buf, &(nbit_info->buffer[nbit_info->buf_pos]), (size_t)copy_length);
 
@@ -461,6 +464,7 @@ HCPcnbit_seek(accrec_t *access_rec, int32 offset, int origin)
         HRETURN_ERROR(DFE_CSEEK, FAIL);
 
     nbit_info->buf_pos = NBIT_BUF_SIZE; /* force re-read if writing */
+    nbit_info->buf_len = 0;
     nbit_info->nt_pos  = 0;             /* start at the first byte of the mask */
     nbit_info->offset  = offset;        /* set abs. offset into the file */
 
